@@ -216,6 +216,45 @@ static void c12Sections(W& w)
         }
 }
 
+// C11 for the one Packet field the table cannot hold: the payload. Writing it (setPayload) from ANY prior state - the packet held
+// nothing, or any other payload, in particular one of the same length and another type, or the same type and another length - must
+// read back as the payload written and leave every header field alone. Compared with a fresh packet that was given the same
+// header and only the new payload.
+static void c11SetPayload(W& w)
+{
+    auto pool = c14::asamPayloads();
+    auto header = [](A::Packet& p) {
+        p.setVersion(0x11); p.setDeviceId(0x2233); p.setStreamId(0x44); p.setSequenceCounter(0x5566); p.setTimestamp(0x778899AABBCCDDEEull); p.setInterfaceId(0x0F1E2D3C);
+        p.setVendorId(0x4B5A); p.setCommonFlags(0x23);
+    };
+    for (int prior = -1; prior < (int) pool.size(); ++prior)
+        for (size_t q = 0; q < pool.size(); ++q)
+            for (int order = 0; order < 2; ++order)
+            {
+                auto desc = [&] { return ofmt("k=c11setpayload;prior=%d;new=%zu;order=%d", prior, q, order); };
+                if (!w.begin_case(desc))
+                    continue;
+                A::Packet p, fresh;
+                if (order == 0)
+                    header(p);
+                if (prior >= 0)
+                    p.setPayload(pool[(size_t) prior].second());
+                if (order == 1)
+                    header(p);   // header fields written while the earlier payload was held
+                A::Payload nq = pool[q].second();
+                p.setPayload(nq);
+                header(fresh);
+                fresh.setPayload(nq);
+                std::string got = c14::observe(p, true), want = c14::observe(fresh, true);
+                if (got != want)
+                    w.fail("set-get-mismatch:Packet::Payload", "setPayload('" + pool[q].first + "') on a packet that held " + (prior < 0 ? std::string("nothing") : "'" + pool[(size_t) prior].first + "'") +
+                                                                   ": {" + got + "} a fresh packet reads {" + want + "}");
+                w.add(mc::C_TRACES, 1);
+                w.add(mc::C_TRANS, 2);
+                w.outcome(mc::mix(mc::fnv_s(got), 11));
+            }
+}
+
 // C12 for the library's NAMED constants: users write Flags::crcErr or PayloadType::can, never 0x0001 or 0x0101, so the numeric value
 // behind each name is part of the wire layout. Expected values are stated here from the protocol tables (ASAM CMP message / payload
 // types and flag bits, TECMP message / data types), independently of the headers.
@@ -478,6 +517,11 @@ int main(int argc, char** argv)
                 c12TecmpDerived(w);
                 return;
             }
+            if (kv["k"] == "c11setpayload")
+            {
+                c11SetPayload(w);
+                return;
+            }
             if (kv["k"] == "c12sec")
             {
                 c12Sections(w);
@@ -535,6 +579,9 @@ int main(int argc, char** argv)
         run.round("every (class, field) x values x backgrounds", ts.size(), [&](W& w, uint64_t o) { classes[ts[o].ci].runField(w, prop, ts[o].fi); });
         if (prop == "C11")
             run.round("flag setters with every mask value (incl. multi-bit masks such as CommonFlags::seg) from every prior flag state", 5, [&](W& w, uint64_t o) { c11Masks(w, (int) o); });
+        if (prop == "C11")
+            run.round("Packet::setPayload from every prior state: nothing or any payload of a 19-member pool held before x 19 new payloads x header written before / after", 1,
+                      [&](W& w, uint64_t) { c11SetPayload(w); });
         if (prop == "C12")
         {
             run.round("class level: default images, reserved bits, header sizes", classes.size(), [&](W& w, uint64_t o) { classes[o].runClass(w); });
